@@ -126,6 +126,8 @@ def run(tier):
     for c in wide:
         c.setup.insert(0, "LOGDUMP 1")
     cases += wide
+    # whole calls on composite tables with capacities from 0 up: the model alone computes *inlen / *outlen / the return value
+    cases += st.composite_cases(rng, 100 if tier == "quick" else 3000, per_table=8, tag="c04wc")
     calls = st.run_and_trace(exe, cases)
     dist = {"fwd": 0, "back": 0, "ret0": 0, "truncated": 0, "generous": 0, "contract_fail": 0, "noR": 0}
     trace_bad = []
@@ -165,6 +167,9 @@ def run(tier):
                         {"script": k.case.setup + [k.op], "result": k.line[:3000]})
         if len(v.cov["samples"]) < 6 and k.R["ret"]:
             v.sample({"op": k.op[:300], "result": k.line.split(" | ")[0][:300]})
+    whole_bad = st.compare_whole(calls, dist)
+    v.obligation("correspondence: the model alone (driver + main-pass + stage models) computes return value, consumed and "
+                 "produced lengths and output of every call on composite generated tables", not whole_bad, "\n".join(whole_bad[:3]))
     v.obligation("correspondence: Lean driver reproduces every recorded call (trace validation)", not trace_bad,
                  "; ".join("%s :: %s" % (k.op[:200], k.trace_detail[:600]) for k in trace_bad[:3]))
     v.cov["traces_validated_against_impl"] = ntrace
